@@ -77,8 +77,8 @@ impl Property for C02 {
     }
     fn runs(&self, tier: Tier) -> u64 {
         match tier {
-            Tier::Quick => 6000,
-            Tier::Thorough => 60000,
+            Tier::Quick => 40000,
+            Tier::Thorough => 400000,
         }
     }
     fn rule(&self) -> &'static str {
